@@ -14,12 +14,49 @@ ASSUMPTIONS = ["the registry is a pure function value -> list of hits (Section v
                "assume wf_search: every reported hit is non-empty and in bounds (the C06 precondition)"]
 
 
+KNOWN_MATCHERS = {
+    "f6_powershell_no_context": lambda v: v.get("class") == "F6",
+    "f19_ps_child_longer_than_cmd": lambda v: v.get("class") == "F19",
+}
+
+
+def whole_scan(ctx, n):
+    """the shipped registry on generated inputs: every reported hit (and supplied sub-structure) in bounds, parent pointers,
+    pre-order iteration, root header"""
+    import corpus_gen
+    from common import check_parents
+    from multidecoder.multidecoder import Multidecoder
+    from scan_common import RecordingRegistry, ScanTimeout, check_reported_hits, with_timeout
+    for data in corpus_gen.gen_inputs(ctx.rng, n):
+        reg = RecordingRegistry()
+        md = Multidecoder(reg.decoders)
+        try:
+            tree = with_timeout(lambda: md.scan(data), 20)
+        except (ScanTimeout, Exception):  # totality is C01's business
+            continue
+        ctx.evals += 1
+        ctx.count("whole_scan")
+        if len(tree.children) >= 2:
+            ctx.nontrivial.add(("scan", data))
+        for cls, msg, value in check_reported_hits(reg):
+            ctx.violation("whole_scan", [data, value], msg, cls=cls)
+        if tree.type != "" or tree.obfuscation != "" or tree.start != 0 or tree.end != len(data) or bytes(tree.value) != data or tree.parent is not None:
+            ctx.violation("whole_scan", [data], "root does not carry the unmodified input / empty labels / span 0..len / no parent")
+        for e in check_parents(tree, None)[:1]:
+            ctx.violation("whole_scan", [data], e)
+        ids = [id(x) for x in tree]
+        if len(ids) != len(set(ids)):
+            ctx.violation("whole_scan", [data], "iterating the root visits a node twice (a node object is shared between child lists)")
+
+
 def run(ctx):
     run_engine(ctx, ORACLES)
+    whole_scan(ctx, ctx.budget(1500, 20000))
 
 
 def search(ctx):
     run_engine(ctx, ORACLES, quick_random=60000, thorough_random=200000, exhaustive_quick=3)
+    whole_scan(ctx, 20000)
 
 
 def replay(ctx, data):
